@@ -103,7 +103,52 @@ impl<'tcx> Walker<'tcx> {
             _ => tcx.instance_mir(inst.def),
         };
         self.has_mir[n] = true;
-        for bb in body.basic_blocks.iter() {
+        // blocks of a local function in which the return place receives an error (`Err(..)` / `?` residual)
+        let is_local = inst.def_id().is_local();
+        let mut err_blocks: Vec<BasicBlock> = vec![];
+        if is_local {
+            for (i, bb) in body.basic_blocks.iter_enumerated() {
+                for s in &bb.statements {
+                    match &s.kind {
+                        StatementKind::Assign(b) => {
+                            let (pl, rv) = &**b;
+                            if pl.local == RETURN_PLACE && pl.projection.is_empty() {
+                                if let Rvalue::Aggregate(ak, _) = rv {
+                                    if let AggregateKind::Adt(d, v, ..) = **ak {
+                                        if tcx.is_diagnostic_item(rustc_span::sym::Result, d) && v.as_u32() == 1 {
+                                            err_blocks.push(i);
+                                        }
+                                    }
+                                }
+                            }
+                        }
+                        StatementKind::SetDiscriminant { place, variant_index } => {
+                            if place.local == RETURN_PLACE && place.projection.is_empty() && variant_index.as_u32() == 1 {
+                                if let ty::Adt(d, _) = body.local_decls[RETURN_PLACE].ty.kind() {
+                                    if tcx.is_diagnostic_item(rustc_span::sym::Result, d.did()) {
+                                        err_blocks.push(i);
+                                    }
+                                }
+                            }
+                        }
+                        _ => {}
+                    }
+                }
+                if let Some(t) = &bb.terminator {
+                    if let TerminatorKind::Call { func, destination, target: Some(tgt), .. } = &t.kind {
+                        if destination.local == RETURN_PLACE && destination.projection.is_empty() {
+                            if let ty::FnDef(d, _) = *func.ty(body, tcx).kind() {
+                                if tcx.item_name(d).as_str() == "from_residual" {
+                                    err_blocks.push(*tgt);
+                                }
+                            }
+                        }
+                    }
+                }
+            }
+        }
+        let doms = if err_blocks.is_empty() { None } else { Some(body.basic_blocks.dominators()) };
+        for (bbi, bb) in body.basic_blocks.iter_enumerated() {
             for s in &bb.statements {
                 if let StatementKind::Assign(b) = &s.kind {
                     let (_, rv) = &**b;
@@ -155,7 +200,13 @@ impl<'tcx> Walker<'tcx> {
                     if let Some(t) = self.mono(inst, t) {
                         let di = Instance::resolve_drop_in_place(tcx, t);
                         if let InstanceKind::DropGlue(_, Some(_)) = di.def {
-                            self.edge(n, di, "drop");
+                            // drops that only run while unwinding from a panic are told apart
+                            // ... and so are drops on a path that has already decided to return an error
+                            let err_only = match doms {
+                                Some(d) => err_blocks.iter().any(|e| d.dominates(*e, bbi)),
+                                None => false,
+                            };
+                            self.edge(n, di, if bb.is_cleanup { "drop_unwind" } else if err_only { "drop_err" } else { "drop" });
                         }
                     }
                 }
